@@ -16,7 +16,7 @@ structure ElemG (F : Type) where
 /-- one round of the element loop reads the element to its value wherever it stands, in front of the layout `after` and
     a delimiter, without error, and rests at the delimiter; `skipws` stays as it was or is switched off -/
 def ElemRd (env : Env F) (ety : ElemTy) (e : ElemG F) : Prop :=
-  Seps e.before ∧ (∃ c u, e.tok = c :: u ∧ isSpace c = false ∧ c ≠ 47 ∧ c ≠ 41) ∧
+  Seps e.before ∧ (∃ c u, e.tok = c :: u ∧ isSpace c = false ∧ c ≠ 47 ∧ c ≠ 41 ∧ c ≠ 92) ∧
   ∀ (l : List Byte) (sk : Bool) (d : Byte) (rest : List Byte), (d = 44 ∨ d = 41) →
     ∃ sk', (sk' = sk ∨ sk' = false) ∧
       elemRead env ety (G l (e.tok ++ (e.after ++ d :: rest)) sk) =
@@ -24,11 +24,11 @@ def ElemRd (env : Env F) (ety : ElemTy) (e : ElemG F) : Prop :=
 
 /-- the element reader starts with the token separator: reading in front of the layout is reading after it -/
 theorem elemRead_before (env : Env F) (hagg : env.cfg.aggrSkipsComments = true) (ety : ElemTy) (before : List Byte)
-    (hb : Seps before) (l : List Byte) (c : Byte) (t : List Byte) (sk : Bool) (hc : isSpace c = false) (h47 : c ≠ 47) :
+    (hb : Seps before) (l : List Byte) (c : Byte) (t : List Byte) (sk : Bool) (hc : isSpace c = false) (h47 : c ≠ 47) (h92 : c ≠ 92) :
     elemRead env ety (G l (before ++ c :: t) sk) = elemRead env ety (G (before.reverse ++ l) (c :: t) sk) := by
   unfold elemRead
   simp only [hagg, if_true]
-  rw [readTokenSeparator_seps before hb l c t sk hc h47, readTokenSeparator_none _ c t sk hc h47]
+  rw [readTokenSeparator_seps before hb l c t sk hc h47 h92, readTokenSeparator_none _ c t sk hc h47 h92]
 
 /-- the same with the layout in front -/
 theorem ElemRd.read {env : Env F} {ety : ElemTy} {e : ElemG F} (h : ElemRd env ety e) (hagg : env.cfg.aggrSkipsComments = true)
@@ -36,11 +36,11 @@ theorem ElemRd.read {env : Env F} {ety : ElemTy} {e : ElemG F} (h : ElemRd env e
     ∃ sk', (sk' = sk ∨ sk' = false) ∧
       elemRead env ety (G l (e.before ++ (e.tok ++ (e.after ++ d :: rest))) sk) =
         .ok (.null, e.v, G (e.after.reverse ++ (e.tok.reverse ++ (e.before.reverse ++ l))) (d :: rest) sk') := by
-  obtain ⟨hb, ⟨c, u, hcu, hcs, h47, _⟩, hrd⟩ := h
+  obtain ⟨hb, ⟨c, u, hcu, hcs, h47, _, h92⟩, hrd⟩ := h
   obtain ⟨sk', hsk, hr⟩ := hrd (e.before.reverse ++ l) sk d rest hd
   refine ⟨sk', hsk, ?_⟩
   rw [← hr, hcu]
-  exact elemRead_before env hagg ety e.before hb l c _ sk hcs h47
+  exact elemRead_before env hagg ety e.before hb l c _ sk hcs h47 h92
 
 def renderElemsG : List (ElemG F) → List Byte
   | [] => []
@@ -139,12 +139,12 @@ theorem aggrRead_elems (env : Env F) (ety : ElemTy) (hagg : env.cfg.aggrSkipsCom
   cases es with
   | nil => exact absurd rfl hne
   | cons e fs =>
-    obtain ⟨hb, ⟨c0, u0, hcu, hcs, h47, h41⟩, hrd⟩ := hok e (by simp)
+    obtain ⟨hb, ⟨c0, u0, hcu, hcs, h47, h41, h92⟩, hrd⟩ := hok e (by simp)
     let e' : ElemG F := { e with before := [] }
     have hok' : ∀ x ∈ e' :: fs, ElemRd env ety x := by
       intro x hx
       rcases List.mem_cons.mp hx with rfl | hx
-      · exact ⟨Seps.blanks [] (by simp), ⟨c0, u0, hcu, hcs, h47, h41⟩, hrd⟩
+      · exact ⟨Seps.blanks [] (by simp), ⟨c0, u0, hcu, hcs, h47, h41, h92⟩, hrd⟩
       · exact hok x (by simp [hx])
     have hhead : ∃ u1, renderElemsG (e' :: fs) ++ rest = c0 :: u1 := by
       cases fs with
@@ -173,7 +173,7 @@ theorem aggrRead_elems (env : Env F) (ety : ElemTy) (hagg : env.cfg.aggrSkipsCom
     simp only [hagg, if_true]
     have e1 : renderElemsG (e :: fs) ++ rest = e.before ++ c0 :: u1 := by
       rw [renderElemsG_cons, List.append_assoc, h1]
-    rw [e1, readTokenSeparator_seps e.before hb (40 :: l) c0 u1 sk hcs h47]
+    rw [e1, readTokenSeparator_seps e.before hb (40 :: l) c0 u1 sk hcs h47 h92]
     rw [show (G (e.before.reverse ++ 40 :: l) (c0 :: u1) sk).peekC = (c0, G (e.before.reverse ++ 40 :: l) (c0 :: u1) sk)
       from peekC_good _ c0 u1 sk]
     have x3 : (c0 == 41) = false := by simpa using h41
@@ -257,11 +257,11 @@ theorem attr_aggr (env : Env F) (strict : Bool) (a : AttrD) (ety : ElemTy) (hty 
 
 /-- the common prefix of a round of the element loop at a token: nothing to skip, no "missing element" verdict -/
 theorem elemRead_at_tok (env : Env F) (hagg : env.cfg.aggrSkipsComments = true) (ety : ElemTy) (l : List Byte) (c : Byte)
-    (t : List Byte) (sk : Bool) (hcs : isSpace c = false) (h47 : c ≠ 47) (h44 : c ≠ 44) (h41 : c ≠ 41) :
+    (t : List Byte) (sk : Bool) (hcs : isSpace c = false) (h47 : c ≠ 47) (h44 : c ≠ 44) (h41 : c ≠ 41) (h92 : c ≠ 92 := by decide) :
     elemRead env ety (G l (c :: t) sk) = elemReadCore env ety (G l (c :: t) sk) := by
   unfold elemRead
   simp only [hagg, if_true, bind, Except.bind, pure, Except.pure]
-  rw [readTokenSeparator_none l c t sk hcs h47, elemMissing_tok env.cfg l c t sk h44 h41]
+  rw [readTokenSeparator_none l c t sk hcs h47 h92, elemMissing_tok env.cfg l c t sk h44 h41]
   simp only [Bool.false_eq_true, if_false]
   cases elemReadCore env ety (G l (c :: t) sk) <;> rfl
 
@@ -281,8 +281,8 @@ theorem ElemRd.integer (env : Env F) (hcfg : env.lex.criSkipsComments = true) (h
     (tok : List Byte) (htok : isInteger tok = true) (hlo : longMin ≤ denoteInteger tok) (hhi : denoteInteger tok < longMax)
     (before after : List Byte) (hb : Seps before) (ha : Seps after) :
     ElemRd env .integer { tok := tok, before := before, after := after, v := .atom (.int (denoteInteger tok)) } := by
-  obtain ⟨c, u, hcu, hcs, h47, h41⟩ := isInteger_head47 tok htok
-  refine ⟨hb, ⟨c, u, hcu, hcs, h47, h41⟩, ?_⟩
+  obtain ⟨c, u, hcu, hcs, h47, h41, h92⟩ := isInteger_head47 tok htok
+  refine ⟨hb, ⟨c, u, hcu, hcs, h47, h41, h92⟩, ?_⟩
   intro l sk d rest hd
   have := elemRead_int env hcfg hagg { tok := tok, before := [], after := after } ⟨htok, hlo, hhi, Seps.blanks [] (by simp), ha⟩ l sk d rest hd
   exact ⟨sk, Or.inl rfl, by simpa [elemVal] using this⟩
@@ -291,7 +291,7 @@ theorem ElemRd.integer (env : Env F) (hcfg : env.lex.criSkipsComments = true) (h
 theorem ElemRd.string (env : Env F) (hcfg : env.lex.criSkipsComments = true) (hagg : env.cfg.aggrSkipsComments = true)
     (b : List Byte) (hsb : StringBody b) (before after : List Byte) (hb : Seps before) (ha : Seps after) :
     ElemRd env .string { tok := 39 :: (b ++ [39]), before := before, after := after, v := .atom (.str (39 :: (b ++ [39]))) } := by
-  refine ⟨hb, ⟨39, b ++ [39], rfl, by decide, by decide, by decide⟩, ?_⟩
+  refine ⟨hb, ⟨39, b ++ [39], rfl, by decide, by decide, by decide, by decide⟩, ?_⟩
   intro l sk d rest hd
   refine ⟨false, Or.inr rfl, ?_⟩
   obtain ⟨c, u, hcu, hc39⟩ := seps_head_not_apos after ha d rest hd
@@ -312,7 +312,7 @@ theorem ElemRd.enum (env : Env F) (hcfg : env.lex.criSkipsComments = true) (hagg
     (hfind : findName (enumKindOf ty).table (name.map toUpper) = some i) (hset : (enumKindOf ty).isUnsetIdx i = false)
     (before after : List Byte) (hb : Seps before) (ha : Seps after) :
     ElemRd env ty { tok := 46 :: (name ++ [46]), before := before, after := after, v := .atom (.enum i) } := by
-  refine ⟨hb, ⟨46, name ++ [46], rfl, by decide, by decide, by decide⟩, ?_⟩
+  refine ⟨hb, ⟨46, name ++ [46], rfl, by decide, by decide, by decide, by decide⟩, ?_⟩
   intro l sk d rest hd
   refine ⟨sk, Or.inl rfl, ?_⟩
   have hshape : 46 :: (name ++ [46]) ++ (after ++ d :: rest) = 46 :: (name ++ 46 :: (after ++ d :: rest)) := by simp
@@ -337,7 +337,7 @@ theorem ElemRd.binary (env : Env F) (hcfg : env.lex.criSkipsComments = true) (ha
     (hex : List Byte) (hne : hex ≠ []) (hhex : hex.all isXDigit = true)
     (before after : List Byte) (hb : Seps before) (ha : Seps after) :
     ElemRd env .binary { tok := 34 :: (hex ++ [34]), before := before, after := after, v := .atom (.bin hex) } := by
-  refine ⟨hb, ⟨34, hex ++ [34], rfl, by decide, by decide, by decide⟩, ?_⟩
+  refine ⟨hb, ⟨34, hex ++ [34], rfl, by decide, by decide, by decide, by decide⟩, ?_⟩
   intro l sk d rest hd
   refine ⟨sk, Or.inl rfl, ?_⟩
   have hshape : 34 :: (hex ++ [34]) ++ (after ++ d :: rest) = 34 :: (hex ++ 34 :: (after ++ d :: rest)) := by simp
@@ -358,15 +358,15 @@ theorem ElemRd.real (env : Env F) (hcfg : env.lex.criSkipsComments = true) (hagg
     (hbuf : env.lex.realBuf = 0 ∨ tok.length < env.lex.realBuf)
     (before after : List Byte) (hb : Seps before) (ha : Seps after) :
     ElemRd env .real { tok := tok, before := before, after := after, v := .atom (.real v) } := by
-  obtain ⟨c, u, hcu, hcs, _, h44, h41, h47⟩ := number_head tok (Or.inl htok)
-  refine ⟨hb, ⟨c, u, hcu, hcs, h47, h41⟩, ?_⟩
+  obtain ⟨c, u, hcu, hcs, _, h44, h41, h47, h92⟩ := number_head tok (Or.inl htok)
+  refine ⟨hb, ⟨c, u, hcu, hcs, h47, h41, h92⟩, ?_⟩
   intro l sk d rest hd
   refine ⟨sk, Or.inl rfl, ?_⟩
   have hr := readReal_tok env.ops env.lex hcfg tok dec v htok hden hv hbuf l sk after ha d rest hd
   show elemRead env .real (G l (tok ++ (after ++ d :: rest)) sk) = _
   rw [hcu] at hr ⊢
   simp only [List.cons_append] at hr ⊢
-  rw [elemRead_at_tok env hagg _ l c _ sk hcs h47 h44 h41, elemReadCore_scalar env .real (Or.inr (Or.inl rfl))]
+  rw [elemRead_at_tok env hagg _ l c _ sk hcs h47 h44 h41 h92, elemReadCore_scalar env .real (Or.inr (Or.inl rfl))]
   have hsn : scalarNodeRead env .real (G l (c :: (u ++ (after ++ d :: rest))) sk) =
       .ok (.null, .real v, G (after.reverse ++ ((c :: u).reverse ++ l)) (d :: rest) sk) := by
     unfold scalarNodeRead
@@ -400,7 +400,7 @@ theorem ElemRd.ref (env : Env F) (hcfg : env.lex.criSkipsComments = true) (hagg 
     (before after : List Byte) (hb : Seps before) (ha : Seps after) :
     ElemRd env (.entity tg) { tok := 35 :: ds, before := before, after := after,
                               v := .atom (.ref ((digitsVal ds 0 : Nat) : Int)) } := by
-  refine ⟨hb, ⟨35, ds, rfl, by decide, by decide, by decide⟩, ?_⟩
+  refine ⟨hb, ⟨35, ds, rfl, by decide, by decide, by decide, by decide⟩, ?_⟩
   intro l sk d rest hd
   refine ⟨sk, Or.inl rfl, ?_⟩
   have hr := readEntityRef_tok env.lex hcfg (refLookup env.lookup tg) ds hne hds hhi hfound l sk after ha d rest hd
